@@ -11,8 +11,8 @@ def run(c):
     obl_kani.run(c, names, timeout=3000)
     A.validate_dictionary_order(c)
     A.obl_regex_hygiene(c, 3 if c.tier == "quick" else 4, budget_s=900)
-    A.obl_fixed_search(c, thorough=(c.tier == "thorough"), budget_s=900)
-    A.obl_fixed_assembly(c, thorough=(c.tier == "thorough"), budget_s=1200)
+    A.obl_fixed_search(c, thorough=(c.tier == "thorough"), budget_s=900 if c.tier == "quick" else 3600)
+    A.obl_fixed_assembly(c, thorough=(c.tier == "thorough"), budget_s=1200 if c.tier == "quick" else 3600)
     # the assembly takes the raw keys as given; that they are the keys of the word in progress is the session invariant
     if c.tier == "quick":
         obl_fixed.obl_session_fixed(c, 2, 2, 1, budget_s=900)
